@@ -6,7 +6,7 @@ from ..framework import result, ihash
 
 ID = "C01"
 LEVEL = "exploration"
-RUNS = {"quick": 700, "thorough": 30000}
+RUNS = {"quick": 1200, "thorough": 30000}
 RULE = ("seeded programs of 1-2 tracing threads over the real libovni: normal emits with payload 0,2..16 and random MCV/payload bytes, jumbo "
         "emits of size 0..capacity, ovni_flush, mark push/pop/set, attr calls; arbitrary 64-bit event clocks in half the runs; a jumbo filler "
         "brings the fill level to CAP - size - delta (delta in -40..+40) before the event under test so the buffer-full boundary falls at "
